@@ -22,6 +22,8 @@ def ts(t: float) -> dt.datetime:
 class ServiceFault(Exception):
     """What a boto client raises (ClientError look-alike): carries .response like botocore."""
 
+    injected_fault = True  # fault injection, never a harness error (see detsched.is_harness_exc)
+
     def __init__(self, code: str, message: str, status: int):
         super().__init__(f"An error occurred ({code}) when calling the operation: {message}")
         self.response = {
